@@ -117,6 +117,29 @@ Theorem backward_intact :
 Proof. exact backward_intact_l. Qed.
 Print Assumptions backward_intact.
 
+(* an outside datagram is never executed as a circuit message: on a node that registered no message as acceptable
+   from a data message (the plain TunnelCommunity), data returned through the exit that is shaped like a message of
+   the tunnel overlay itself (create, created, extend, data, ping, ... with the overlay prefix) is dropped by the
+   originator - no handler runs, nothing is sent, no state changes - whoever sent it from outside. *)
+Theorem outside_control_message_dropped :
+  forall (key nonce : Type) (enc : key -> dir -> nonce -> bytes -> bytes) (dec : key -> dir -> bytes -> option bytes)
+         (p : path key) (source : addr) (data : bytes) (nsx : nat -> nonce) (rnd : Z -> bytes)
+         (nss : nat -> nat -> nonce) (nso : nat -> nonce),
+  aead_correct enc dec -> backward_ready p -> c_hs (p_circ p) = None ->
+  addr_ok false source = true -> bytes_okb data = true ->
+  existsb (Z.eqb 1) (n_handlers (p_origin p)) = true ->
+  could_be_ipv8 data = true -> is_e2e (c_ctype (p_circ p)) = false ->
+  bytes_eqb (p_pfx p) (slice data None (Some 22)) = true -> n_data_ids (p_origin p) = [] ->
+  let a1 := first_addr (p_relays p) (p_xaddr p) in
+  let prev := last_sender (p_relays p) (p_oaddr p) in
+  exists (links : list bytes),
+    tunnel_data enc (p_exit p) (p_xsock p) source data nsx = Ok (p_exit p, [Send prev (hd [] links)])
+    /\ through enc dec (rev (p_relays p)) (p_xaddr p) prev (hd [] links) rnd nss
+       = Some (a1, p_oaddr p, nth (length (p_relays p)) links [], tl links)
+    /\ on_packet enc dec (p_origin p) a1 (nth (length (p_relays p)) links []) rnd nso = Ok (p_origin p, []).
+Proof. exact outside_control_message_dropped_l. Qed.
+Print Assumptions outside_control_message_dropped.
+
 (* no_two_links_equal: the bodies on two different links differ, and (j = number of hops) none of them is
    the plaintext message - in either direction. *)
 Theorem no_two_links_equal :
